@@ -431,6 +431,7 @@ class Table(Vector):
 				_ALIAS_TRACKER.unregister(self, id(self._underlying))
 				object.__setattr__(self, '_underlying', new_cols)
 				_ALIAS_TRACKER.register(self, id(new_cols))
+				self._invalidate_fp()
 				object.__setattr__(self, '_column_map', self._build_column_map())
 				return
 			
@@ -455,6 +456,7 @@ class Table(Vector):
 				_ALIAS_TRACKER.unregister(self, id(self._underlying))
 				object.__setattr__(self, '_underlying', new_cols)
 				_ALIAS_TRACKER.register(self, id(new_cols))
+				self._invalidate_fp()
 				
 				# Rebuild column map to reflect any structural changes
 				object.__setattr__(self, '_column_map', self._build_column_map())
